@@ -67,6 +67,25 @@ def main():
                    f"{'yes' if r.get('tests_pass', True) else 'NO'} | {', '.join(caught) or 'MISSED'} | {', '.join(conc) or '-'} |")
     out.append(f'\n{det} of {n} kept seeded changes are reported as a VIOLATION by at least one registered check (quick tier).\n')
 
+    out.append('### 9.2a Harmless (behaviour-preserving) refactors and whether any check raised an alarm\n')
+    hres = {}
+    hp = os.path.join(VERIF, 'harmless', 'RESULTS.json')
+    if os.path.exists(hp):
+        hres = json.load(open(hp))
+    out.append('| refactor | property | what was refactored | tests still pass | check exit codes | alarm |')
+    out.append('|---|---|---|---|---|---|')
+    hn = ha = 0
+    for mf in sorted(glob.glob(os.path.join(VERIF, 'harmless', '*', 'meta.json'))):
+        hid = os.path.basename(os.path.dirname(mf))
+        m = json.load(open(mf))
+        r = hres.get(hid, {})
+        hn += 1
+        ha += bool(r.get('alarm'))
+        codes = ', '.join(f"{p_}:{c_['exit']}" for p_, c_ in r.get('checks', {}).items())
+        out.append(f"| {hid} | {m.get('property', '')} | {esc(m.get('title', ''))[:200]} | "
+                   f"{'yes' if r.get('tests_pass', True) else 'NO'} | {codes} | {'ALARM' if r.get('alarm') else 'none'} |")
+    out.append(f'\n{ha} of {hn} harmless refactors made a check exit non-zero (quick tier, final state of the checks).\n')
+
     out.append('### 9.3 Defects found on the unchanged tree (known_findings.json)\n')
     kf = json.load(open(os.path.join(VERIF, 'known_findings.json')))['findings']
     out.append('| property | status | id | commit | what |')
